@@ -311,7 +311,9 @@ func (d *Decoder) readUntypedList(tag byte) (interface{}, error) {
 			aryValue = reflect.Append(aryValue, v)
 			holder.change(aryValue)
 		} else {
-			ary[j] = it
+			// store the value itself, not the decoder's carrier (a reflect.Value for a
+			// back-reference, a list holder for a nested list)
+			ary[j], _ = EnsureInterface(it, nil)
 		}
 	}
 
